@@ -8,7 +8,7 @@ theorem Fr.dropT (w : W) (rid : Nat) : Fr w (w.dropT rid) := (FQ.modR _ _ _).fr.
 theorem Fr.dropE (w : W) (rid : Nat) : Fr w (w.dropE rid) := (FQ.modR _ _ _).fr.trans (Fr.unrefCheck _ _)
 
 theorem Fr.wheelBroken (w : W) : Fr w w.wheelBroken :=
-  ⟨rfl, rfl, rfl, fun _ => rfl, ⟨[], by simp [W.wheelBroken]⟩, id, id, Nat.le_refl _, Or.inl ⟨rfl, rfl, rfl⟩⟩
+  ⟨rfl, rfl, rfl, fun _ => rfl, ⟨[], by simp [W.wheelBroken]⟩, id, id, Nat.le_refl _, Or.inl ⟨rfl, rfl, rfl⟩, Nat.le_refl _⟩
 
 theorem W.fireTimeout_fr (w : W) (rid : Nat) : Fr w (w.fireTimeout rid) := by
   unfold W.fireTimeout
